@@ -131,10 +131,15 @@ def run(index, tier="quick", seed=0) -> Result:
                     "is the centroid only for triangles, parallelograms, regular polygons and centrally symmetric solids")
         else:
             res.ok("MEAN-1", k_, nontrivial=False)
+    check_ori1(res, index, cls)
+    return res
+
+
+def check_ori1(res, index, cls):
+    from ..interp import Interp as _Interp
     # ORI-1: after the breadth-first pass every face agrees with face 0; whether that common orientation is outward is a
     # property of the whole surface (the sign of the signed volume).  A test on one face's plane (an element picked by a
     # constant index) is right only for solids that are star-shaped about the reference point.
-    from ..interp import Interp as _Interp
     sf = cls.methods.get("sort_faces")
     if sf is None:
         raise AnalysisError("anchor vanished: Polyhedron.sort_faces")
@@ -172,7 +177,6 @@ def run(index, tier="quick", seed=0) -> Result:
                 f"(`{e.src()[:70]}`): right only for solids that are star-shaped about the reference point; for a U-shaped solid every face can be turned inward")
     else:
         raise AnalysisError("ORI-1: the global orientation test of Polyhedron.sort_faces is not recognised")
-    return res
 
 
 def _tet_rule(res, fn):
